@@ -52,6 +52,7 @@ def run(tier):
     traces.append(drive(c, "random", "random", n=nrand))
     traces.append(drive(c, "stress", "stress", n=nstress))
     traces.append(drive(c, "bigclear", "bigclear", n=4 if c.quick() else 12))
+    traces.append(drive(c, "failstorm", "failstorm", n=6 if c.quick() else 40))
     for name, path in traces:
         validate(c, path, name)
     if not c.quick():
@@ -133,6 +134,9 @@ def report(c, block, idx):
         sig = "lruconc: a created value was never passed to the delete callback (leak) after the final Clear"
     elif e == "stuck":
         sig = "lruconc: a caller never returned although no creation was left to complete"
+    elif e == "storm":
+        sig = ("lruconc: many callers on one key whose creation failed dozens of times in a row: two creations in progress at once, more than one "
+               "value created, callers with different values, or a created value not deleted exactly once")
     else:
         sig = "lruconc: event %s not allowed" % e
     c.report_failure(sig, {"rejected_event": ev, "history": block[:idx + 1],
